@@ -216,7 +216,11 @@ func parseRuleList(cs []Comp, top bool) []Rule {
 				r.Items = parseDeclList(cs[j].Args)
 				j++
 			} else {
+				// a qualified rule without a block is a parse error and yields nothing
+				// (CSS Syntax §5.4.3); it always extends to the end of the list
 				r.Broken = true
+				i = j
+				continue
 			}
 			out = append(out, r)
 			i = j
@@ -283,6 +287,15 @@ func parseDeclList(cs []Comp) []Item {
 }
 
 func parseDecl(seg []Comp) *Decl {
+	// the Internet Explorer "star hack" (*zoom:1): a parse error for CSS, a declaration for
+	// IE 7 and for the minifier; it is compared as a declaration named "*zoom"
+	if len(seg) > 1 && seg[0].Kind == KDelim && seg[0].Val == "*" && seg[1].Kind == KIdent && !seg[1].Cmt {
+		if d := parseDecl(seg[1:]); d != nil && !d.Custom {
+			d.Name = "*" + d.Name
+			return d
+		}
+		return nil
+	}
 	if len(seg) == 0 || seg[0].Kind != KIdent {
 		return nil
 	}
